@@ -1121,6 +1121,7 @@ func checkDecompressOnlyWhenConfigured(c *Ctx, rule string) {
 				if !ok || (bo.Op != token.EQL && bo.Op != token.NEQ) || !isNilConst(bo.Y) {
 					continue
 				}
+				_ = 0
 				isCfg := derives(bo.X, func(v ssa.Value) bool {
 					if call, ok := v.(*ssa.Call); ok {
 						if g := calleeFn(call.Common()); g != nil && (g.Name() == "GetCompression") {
@@ -1141,6 +1142,30 @@ func checkDecompressOnlyWhenConfigured(c *Ctx, rule string) {
 				}
 				if sb := d.Succs[k]; len(sb.Preds) == 1 && (sb == b || sb.Dominates(b)) {
 					guarded = true
+				}
+			}
+			// the test may be a predicate method: `if !f.hasCompressionConfig() { return }`
+			if !guarded {
+				for _, d := range fn.Blocks {
+					iff, ok := d.Instrs[len(d.Instrs)-1].(*ssa.If)
+					if !ok {
+						continue
+					}
+					cond, k := iff.Cond, 0
+					if u, ok := cond.(*ssa.UnOp); ok && u.Op == token.NOT {
+						cond, k = u.X, 1
+					}
+					call, ok := cond.(*ssa.Call)
+					if !ok {
+						continue
+					}
+					g := calleeFn(call.Common())
+					if g == nil || !isModFn(g) || g.Blocks == nil || !predicateImpliesCompressionCfg(g) {
+						continue
+					}
+					if sb := d.Succs[k]; len(sb.Preds) == 1 && (sb == b || sb.Dominates(b)) {
+						guarded = true
+					}
 				}
 			}
 			c.Check(guarded, rule, site, in.Pos(), "dominated by the non-nil side of a test of the compression configuration", "the decompression hook is registered although the service has no compression section: every reply that starts with the magic header and a well-formed stream is rewritten - a client that stored such bytes reads something else back, on a proxy that was never asked to compress")
@@ -1219,4 +1244,74 @@ func checkFilterHasNoScratchState(c *Ctx, rule string) {
 	if nbad == 0 {
 		c.OK(rule, "the filter carries no mutable state", token.NoPos, fmt.Sprintf("%d functions of compressFilter examined: none stores into the receiver or passes the address of one of its fields", n))
 	}
+}
+
+// predicateImpliesCompressionCfg: a boolean function that can only return true when the compression configuration is
+// non-nil: every return is the constant false, a `cfg != nil` comparison (a conjunction ends in it), or sits on the
+// non-nil side of such a test.
+func predicateImpliesCompressionCfg(g *ssa.Function) bool {
+	isCfgVal := func(v ssa.Value) bool {
+		return derives(v, func(y ssa.Value) bool {
+			if call, ok := y.(*ssa.Call); ok {
+				if h := calleeFn(call.Common()); h != nil && h.Name() == "GetCompression" {
+					return true
+				}
+			}
+			if f, _ := loadedField(y); f != nil && f.Name() == "Compression" {
+				return true
+			}
+			return false
+		})
+	}
+	isCfgNonNil := func(v ssa.Value) bool {
+		bo, ok := v.(*ssa.BinOp)
+		return ok && bo.Op == token.NEQ && isNilConst(bo.Y) && isCfgVal(bo.X)
+	}
+	isFalse := func(v ssa.Value) bool {
+		cst, ok := v.(*ssa.Const)
+		return ok && cst.Value != nil && cst.Value.String() == "false"
+	}
+	onNonNilSide := func(b *ssa.BasicBlock) bool {
+		for _, d := range g.Blocks {
+			iff, ok := d.Instrs[len(d.Instrs)-1].(*ssa.If)
+			if !ok {
+				continue
+			}
+			bo, ok := iff.Cond.(*ssa.BinOp)
+			if !ok || (bo.Op != token.EQL && bo.Op != token.NEQ) || !isNilConst(bo.Y) || !isCfgVal(bo.X) {
+				continue
+			}
+			k := 1
+			if bo.Op == token.NEQ {
+				k = 0
+			}
+			if sb := d.Succs[k]; len(sb.Preds) == 1 && (sb == b || sb.Dominates(b)) {
+				return true
+			}
+		}
+		return false
+	}
+	okAll, n := true, 0
+	eachInstr(g, func(b *ssa.BasicBlock, _ int, in ssa.Instruction) {
+		ret, ok := in.(*ssa.Return)
+		if !ok || len(ret.Results) != 1 {
+			return
+		}
+		n++
+		r := returnedValues(ret)[0]
+		switch {
+		case isFalse(r), isCfgNonNil(r), onNonNilSide(b):
+		default:
+			if ph, isPhi := r.(*ssa.Phi); isPhi {
+				for _, e := range ph.Edges {
+					if !isFalse(e) && !isCfgNonNil(e) {
+						okAll = false
+					}
+				}
+			} else {
+				okAll = false
+			}
+		}
+	})
+	return okAll && n > 0
 }
